@@ -37,6 +37,7 @@ CONSTANT Mutant       \* "none" | "attach_first" | "factory_per_segment" | "repl
                       \*        | "tail_copies_value" the nested Assign of missing= re-evaluated the value (copy)
                       \*        | "tail_value_lost"   S-rooted destination + missing=: value written outside the tail
                       \*        | "alias_lost"        a list met twice in a literal value is rebuilt as [] the 2nd time
+                      \*        | "tail_default_registry"  created containers filled through another registry
                       \* state kept on the spec object between evaluations (must not exist):
                       \*        | "memo_split"        the split at the first absent segment is remembered
 
@@ -47,8 +48,12 @@ FlagOf(fl, v) == IF IsRef(v) /\ v.a <= Len(fl) THEN fl[v.a] ELSE ""
 
 \* events of the write log: the mutator method of a container was entered (done = it
 \* completed), the missing-factory was called for the n-th time
-WEv(a, op, key, done) == [ev |-> "write", a |-> a, op |-> op, key |-> key, done |-> done]
-FEv(n) == [ev |-> "factory", a |-> n, op |-> "call", key |-> VNone, done |-> TRUE]
+\* via: how the mutator was reached -- "seg": by the 'assign' / 'delete' handler that the EXECUTING
+\* registry (the default one for glom(), a Glommer's own for glommer.glom()) has for the container's
+\* type, as every path-segment step must be; "t": directly by a T[..] / T.attr step;
+\* "foreign": by a handler of some other registry (never, in the specification)
+WEv(a, op, key, done, via) == [ev |-> "write", a |-> a, op |-> op, key |-> key, done |-> done, via |-> via]
+FEv(n) == [ev |-> "factory", a |-> n, op |-> "call", key |-> VNone, done |-> TRUE, via |-> ""]
 
 POk(h, evs)     == [ok |-> TRUE,  heap |-> h, exc |-> "", evs |-> evs]
 PExc(h, e, evs) == [ok |-> FALSE, heap |-> h, exc |-> e,  evs |-> evs]
@@ -56,55 +61,55 @@ PExc(h, e, evs) == [ok |-> FALSE, heap |-> h, exc |-> e,  evs |-> evs]
 NormIdx(n, i) == IF i >= 0 /\ i < n THEN i + 1 ELSE IF i < 0 /\ i >= -n THEN n + i + 1 ELSE 0
 
 \* dest[key] = v
-PySetItem(h, fl, dest, key, v) ==
+PySetItem(h, fl, dest, key, v, via) ==
   IF ~IsRef(dest) THEN PExc(h, "TypeError", <<>>)
   ELSE LET c == h[dest.a]  f == FlagOf(fl, dest) IN
     CASE c.cls \in {"dict", "odict"} ->
-           IF f = "wfault" THEN PExc(h, "RuntimeError", <<WEv(dest.a, "set", key, FALSE)>>)
-           ELSE POk([h EXCEPT ![dest.a].items = SetKey(@, key, v)], <<WEv(dest.a, "set", key, TRUE)>>)
+           IF f = "wfault" THEN PExc(h, "RuntimeError", <<WEv(dest.a, "set", key, FALSE, via)>>)
+           ELSE POk([h EXCEPT ![dest.a].items = SetKey(@, key, v)], <<WEv(dest.a, "set", key, TRUE, via)>>)
       [] c.cls = "list" ->
-           IF f = "wfault" THEN PExc(h, "RuntimeError", <<WEv(dest.a, "set", key, FALSE)>>)
-           ELSE IF key.k # "int" THEN PExc(h, "TypeError", <<WEv(dest.a, "set", key, FALSE)>>)
+           IF f = "wfault" THEN PExc(h, "RuntimeError", <<WEv(dest.a, "set", key, FALSE, via)>>)
+           ELSE IF key.k # "int" THEN PExc(h, "TypeError", <<WEv(dest.a, "set", key, FALSE, via)>>)
            ELSE LET j == NormIdx(Len(c.items), key.i) IN
-                IF j = 0 THEN PExc(h, "IndexError", <<WEv(dest.a, "set", key, FALSE)>>)
-                ELSE POk([h EXCEPT ![dest.a].items[j] = v], <<WEv(dest.a, "set", key, TRUE)>>)
+                IF j = 0 THEN PExc(h, "IndexError", <<WEv(dest.a, "set", key, FALSE, via)>>)
+                ELSE POk([h EXCEPT ![dest.a].items[j] = v], <<WEv(dest.a, "set", key, TRUE, via)>>)
       [] OTHER -> PExc(h, "TypeError", <<>>)        \* tuple, frozenset, set, obj: no item assignment
 
 \* setattr(dest, name, v)
-PySetAttr(h, fl, dest, name, v) ==
+PySetAttr(h, fl, dest, name, v, via) ==
   IF name.k # "str" THEN PExc(h, "TypeError", <<>>)
   ELSE IF IsRef(dest) /\ h[dest.a].cls = "obj" THEN
     LET f == FlagOf(fl, dest) IN
-    IF f = "wfault" THEN PExc(h, "RuntimeError", <<WEv(dest.a, "set", name, FALSE)>>)
-    ELSE IF f = "prop" /\ name = VStr("r") THEN PExc(h, "AttributeError", <<WEv(dest.a, "set", name, FALSE)>>)
-    ELSE POk([h EXCEPT ![dest.a].items = SetKey(@, name, v)], <<WEv(dest.a, "set", name, TRUE)>>)
+    IF f = "wfault" THEN PExc(h, "RuntimeError", <<WEv(dest.a, "set", name, FALSE, via)>>)
+    ELSE IF f = "prop" /\ name = VStr("r") THEN PExc(h, "AttributeError", <<WEv(dest.a, "set", name, FALSE, via)>>)
+    ELSE POk([h EXCEPT ![dest.a].items = SetKey(@, name, v)], <<WEv(dest.a, "set", name, TRUE, via)>>)
   ELSE PExc(h, "AttributeError", <<>>)              \* builtin values have no settable attributes
 
 \* del dest[key]
-PyDelItem(h, fl, dest, key) ==
+PyDelItem(h, fl, dest, key, via) ==
   IF ~IsRef(dest) THEN PExc(h, "TypeError", <<>>)
   ELSE LET c == h[dest.a]  f == FlagOf(fl, dest) IN
     CASE c.cls \in {"dict", "odict"} ->
-           IF f = "dfault" THEN PExc(h, "RuntimeError", <<WEv(dest.a, "del", key, FALSE)>>)
-           ELSE IF ~HasKey(c.items, key) THEN PExc(h, "KeyError", <<WEv(dest.a, "del", key, FALSE)>>)
-           ELSE POk([h EXCEPT ![dest.a].items = DelKey(@, key)], <<WEv(dest.a, "del", key, TRUE)>>)
+           IF f = "dfault" THEN PExc(h, "RuntimeError", <<WEv(dest.a, "del", key, FALSE, via)>>)
+           ELSE IF ~HasKey(c.items, key) THEN PExc(h, "KeyError", <<WEv(dest.a, "del", key, FALSE, via)>>)
+           ELSE POk([h EXCEPT ![dest.a].items = DelKey(@, key)], <<WEv(dest.a, "del", key, TRUE, via)>>)
       [] c.cls = "list" ->
-           IF f = "dfault" THEN PExc(h, "RuntimeError", <<WEv(dest.a, "del", key, FALSE)>>)
-           ELSE IF key.k # "int" THEN PExc(h, "TypeError", <<WEv(dest.a, "del", key, FALSE)>>)
+           IF f = "dfault" THEN PExc(h, "RuntimeError", <<WEv(dest.a, "del", key, FALSE, via)>>)
+           ELSE IF key.k # "int" THEN PExc(h, "TypeError", <<WEv(dest.a, "del", key, FALSE, via)>>)
            ELSE LET j == NormIdx(Len(c.items), key.i) IN
-                IF j = 0 THEN PExc(h, "IndexError", <<WEv(dest.a, "del", key, FALSE)>>)
-                ELSE POk([h EXCEPT ![dest.a].items = RemoveAt(@, j)], <<WEv(dest.a, "del", key, TRUE)>>)
+                IF j = 0 THEN PExc(h, "IndexError", <<WEv(dest.a, "del", key, FALSE, via)>>)
+                ELSE POk([h EXCEPT ![dest.a].items = RemoveAt(@, j)], <<WEv(dest.a, "del", key, TRUE, via)>>)
       [] OTHER -> PExc(h, "TypeError", <<>>)
 
 \* delattr(dest, name)
-PyDelAttr(h, fl, dest, name) ==
+PyDelAttr(h, fl, dest, name, via) ==
   IF name.k # "str" THEN PExc(h, "TypeError", <<>>)
   ELSE IF IsRef(dest) /\ h[dest.a].cls = "obj" THEN
     LET c == h[dest.a]  f == FlagOf(fl, dest) IN
-    IF f = "dfault" THEN PExc(h, "RuntimeError", <<WEv(dest.a, "del", name, FALSE)>>)
+    IF f = "dfault" THEN PExc(h, "RuntimeError", <<WEv(dest.a, "del", name, FALSE, via)>>)
     ELSE IF (f = "prop" /\ name = VStr("r")) \/ ~HasKey(c.items, name)
-         THEN PExc(h, "AttributeError", <<WEv(dest.a, "del", name, FALSE)>>)
-    ELSE POk([h EXCEPT ![dest.a].items = DelKey(@, name)], <<WEv(dest.a, "del", name, TRUE)>>)
+         THEN PExc(h, "AttributeError", <<WEv(dest.a, "del", name, FALSE, via)>>)
+    ELSE POk([h EXCEPT ![dest.a].items = DelKey(@, name)], <<WEv(dest.a, "del", name, TRUE, via)>>)
   ELSE PExc(h, "AttributeError", <<>>)
 
 \* Built-in support documented for path segments ('P'): keys of mappings, indexes of
@@ -115,29 +120,29 @@ Handler(h, dest) ==
 
 \* one assignment step  (exc is the class glom lets escape)
 StoreOp(h, fl, dest, st, v) ==
-  CASE st.op = "[" -> PySetItem(h, fl, dest, st.arg, v)
-    [] st.op = "." -> PySetAttr(h, fl, dest, st.arg, v)
+  CASE st.op = "[" -> PySetItem(h, fl, dest, st.arg, v, "t")
+    [] st.op = "." -> PySetAttr(h, fl, dest, st.arg, v, "t")
     [] st.op = "P" ->
          LET hd == Handler(h, dest) IN
          IF hd = "none" THEN PExc(h, "UnregisteredTarget", <<>>)
-         ELSE LET r == CASE hd = "item" -> PySetItem(h, fl, dest, st.arg, v)
+         ELSE LET r == CASE hd = "item" -> PySetItem(h, fl, dest, st.arg, v, "seg")
                          [] hd = "seq"  -> LET n == PyInt(st.arg) IN
-                                           IF n.ok THEN PySetItem(h, fl, dest, VInt(n.v), v) ELSE PExc(h, n.exc, <<>>)
-                         [] hd = "attr" -> PySetAttr(h, fl, dest, st.arg, v)
+                                           IF n.ok THEN PySetItem(h, fl, dest, VInt(n.v), v, "seg") ELSE PExc(h, n.exc, <<>>)
+                         [] hd = "attr" -> PySetAttr(h, fl, dest, st.arg, v, "seg")
               IN IF r.ok THEN r ELSE [r EXCEPT !.exc = "PathAssignError"]
 
 \* one deletion step, exceptions of the primitive untranslated (raw = TRUE when the
 \* exception arose outside any handler, i.e. no 'delete' handler is registered)
 DelOp(h, fl, dest, st) ==
-  CASE st.op = "[" -> PyDelItem(h, fl, dest, st.arg)
-    [] st.op = "." -> PyDelAttr(h, fl, dest, st.arg)
+  CASE st.op = "[" -> PyDelItem(h, fl, dest, st.arg, "t")
+    [] st.op = "." -> PyDelAttr(h, fl, dest, st.arg, "t")
     [] st.op = "P" ->
          LET hd == Handler(h, dest) IN
          CASE hd = "none" -> PExc(h, "UnregisteredTarget", <<>>)
-           [] hd = "item" -> PyDelItem(h, fl, dest, st.arg)
+           [] hd = "item" -> PyDelItem(h, fl, dest, st.arg, "seg")
            [] hd = "seq"  -> LET n == PyInt(st.arg) IN
-                             IF n.ok THEN PyDelItem(h, fl, dest, VInt(n.v)) ELSE PExc(h, n.exc, <<>>)
-           [] hd = "attr" -> PyDelAttr(h, fl, dest, st.arg)
+                             IF n.ok THEN PyDelItem(h, fl, dest, VInt(n.v), "seg") ELSE PExc(h, n.exc, <<>>)
+           [] hd = "attr" -> PyDelAttr(h, fl, dest, st.arg, "seg")
 
 \* ===================================================================================
 \* 2. The law
@@ -345,6 +350,15 @@ Conforms(c, e, ok, cls, v, h) == ConformClause(c, e, ok, cls, v, h) = ""
 \* an effective write to a pre-existing cell may only be the last event
 EffectivePre(c, ev) == ev.ev = "write" /\ ev.done /\ ev.a <= N0(c)
 AttachLastLog(c, lg) == \A j \in 1..Len(lg) : EffectivePre(c, lg[j]) => j = Len(lg)
+\* every write of the call -- also into containers created for missing segments -- is reached
+\* through the executing registry's handler (path segments) or directly (T steps), never through
+\* a handler of another registry
+ExecRegistryLog(lg) == \A j \in 1..Len(lg) : lg[j].ev = "write" => lg[j].via \in {"seg", "t"}
+\* same events, but a path-segment write was not routed like the specification says
+RouteClause(mlog, olog) ==
+  IF Len(mlog) # Len(olog) THEN ""
+  ELSE IF \E j \in 1..Len(mlog) : [mlog[j] EXCEPT !.via = ""] # [olog[j] EXCEPT !.via = ""] THEN ""
+  ELSE IF mlog # olog THEN "registry-route" ELSE ""
 FactoryCalls(lg) == Len(SelectSeq(lg, LAMBDA ev : ev.ev = "factory"))
 \* nothing but the addressed entry is new: every entry present before is still there
 IsPrefix(a, b) == Len(a) <= Len(b) /\ SubSeq(b, 1, Len(a)) = a
@@ -438,7 +452,12 @@ DoWrite(s) ==
       r == IF Mutant = "attach_first" /\ s.pc = "store" /\ s.nfac > 0 THEN POk(s.heap, <<>>)
            ELSE IF Mutant = "tail_value_lost" /\ innermost THEN POk(s.heap, <<>>)
            ELSE StoreOp(hv, c.flags, dest, stp, IF copied THEN VRef(Len(hv)) ELSE s.val)
-      s1 == [s EXCEPT !.heap = r.heap, !.log = @ \o r.evs]
+      \* mutant: the tail of created containers is filled through the DEFAULT registry's handlers
+      \* (a fresh module-level call) instead of the executing registry's
+      evs == IF Mutant = "tail_default_registry" /\ s.pc = "tail"
+             THEN [i \in 1..Len(r.evs) |-> IF r.evs[i].via = "seg" THEN [r.evs[i] EXCEPT !.via = "foreign"] ELSE r.evs[i]]
+             ELSE r.evs
+      s1 == [s EXCEPT !.heap = r.heap, !.log = @ \o evs]
   IN IF ~r.ok THEN Finish(s1, FALSE, r.exc)
      ELSE IF s.queue # <<>> THEN [s1 EXCEPT !.cur = Head(s.queue), !.queue = Tail(s.queue)]   \* next match
      ELSE IF Len(s.stk) = 1 THEN Finish(s1, TRUE, "")
@@ -499,6 +518,7 @@ Plain == ~HasStar(case.steps)
 NoEarlyWrite == Running /\ Plain => Pre(case, heap) = case.heap0
 \* a write into the pre-existing structure is the last thing that happens
 AttachLast == (Running \/ pc = "done") /\ Plain => AttachLastLog(case, log)
+ExecRegistryOnly == (Running \/ pc = "done") => ExecRegistryLog(log)
 \* one factory call per absent segment, never more
 FactoryLaw == (Running \/ pc = "done") =>
                 /\ nfac = FactoryCalls(log)
